@@ -1,0 +1,29 @@
+//go:build verif
+
+// Contracts for the deductive checks in /verif (comment-only; not part of normal builds).
+
+package utils
+
+// The registry of local locks (C12): every request for one lock name must end up on the SAME mutex,
+// for as long as the process lives — mutual exclusion between requests rests on nothing else. A lock
+// therefore stays registered when it is released, and a lock handed out waits on the context of the
+// request that asked for it.
+//@ pred registryWF() = forall n string :: sel(G.registry, n) != nil ==> sel(G.registry, n).(*LocalLock) && allocated(sel(G.registry, n).(as *LocalLock)) && sel(G.registry, n).(as *LocalLock).mutex != nil
+
+//@ func GetLocalLock
+//@   mode math
+//@   props C12
+//@   requires ctx != nil && registryWF()
+//@   ensures[registered]            result != nil && sel(G.registry, lockName) != nil && registryWF()
+//@   ensures[one-mutex-per-name]    result.mutex != nil && result.mutex == sel(G.registry, lockName).(as *LocalLock).mutex
+//@   ensures[registered-lock-is-kept] old(sel(G.registry, lockName)) != nil ==> sel(G.registry, lockName) == old(sel(G.registry, lockName))
+//@   ensures[other-names-untouched] forall n string :: n != lockName ==> sel(G.registry, n) == old(sel(G.registry, n))
+//@   ensures[waits-on-the-callers-context] result.ctx == ctx
+//@   modifies G:registry, alloc
+
+//@ func (*LocalLock).Unlock
+//@   mode math
+//@   props C12
+//@   requires its.mutex != nil && its.ctx != nil
+//@   ensures[stays-registered] G.registry == old(G.registry)
+//@   modifies nothing
